@@ -498,6 +498,88 @@ theorem document_plaintext_user_56 {P : Prims} {H : Hashes} (hp : PrimsAgree P H
   have hm : Matches (Decoder.mk' fileKey 32 .aesv3 d.encryptMetadata) .aes256 fileKey := ⟨rfl, rfl, w.key⟩
   exact read_object_plaintext hp hw _ .aes256 _ (matches_install _ _ _ encRef metaRef hm) compressed id gen plain stored hs
 
+/-! ### Audit follow-up: strings *and* stream data, user *and* owner password -/
+
+/-- everything read through a decoder installed for a document comes back as plaintext: every object
+    (strings in any nesting; members of object streams untouched) and every stream (decryption with the
+    stream's own id, then the filters), whatever `/Encrypt` and `/Metadata` refer to -/
+def ReadsPlaintext (P : Prims) (H : Hashes) (dec : Decoder) (c : Cipher) (fileKey : Bytes) : Prop :=
+  ∀ (encRef metaRef : Option (Nat × Nat)),
+    (∀ (compressed : Bool) (id gen : Nat) (plain stored : Val),
+      (if compressed then stored = plain
+       else EncVal (StoredAs H c fileKey (Exempt (installDecoder dec encRef metaRef) id gen) id gen) plain stored) →
+      readObject P (some (installDecoder dec encRef metaRef)) compressed id gen stored = .ok plain) ∧
+    (∀ (id gen : Nat) (filtered stored : Bytes) (filters : List (Bytes → Out Bytes)),
+      StoredAs H c fileKey (Exempt (installDecoder dec encRef metaRef) id gen) id gen filtered stored →
+      decodeStream P (some (installDecoder dec encRef metaRef)) id gen stored filters = applyFilters filters filtered)
+
+/-- a decoder that holds the writer's key for the writer's cipher reads everything as plaintext
+    (composition of `read_object_plaintext`, `decode_stream_plaintext` and `matches_install`) -/
+theorem reads_plaintext_of_matches {P : Prims} {H : Hashes} (hp : PrimsAgree P H) (hw : H.WF) (dec : Decoder) (c : Cipher)
+    (fileKey : Bytes) (hm : Matches dec c fileKey) : ReadsPlaintext P H dec c fileKey := by
+  intro encRef metaRef
+  have hm' := matches_install dec c fileKey encRef metaRef hm
+  exact ⟨fun compressed id gen plain stored hs => read_object_plaintext hp hw _ c _ hm' compressed id gen plain stored hs,
+    fun id gen filtered stored filters hs => decode_stream_plaintext hp hw _ c _ hm' id gen filtered stored filters hs⟩
+
+/-- **stream data tied to `from_password`, revisions 2–4, user password**: the document of
+    `document_plaintext_user_rc4` opens with the user password and then every object *and every stream*
+    (`Storage::decode`: decrypt with the stream's id, then the filters) yields the plaintext. -/
+theorem document_stream_plaintext_user_rc4 {P : Prims} {H : Hashes} (hp : PrimsAgree P H) (hw : H.WF) (d : CryptDict) (id0 : Bytes)
+    (n : Nat) (m : Method) (c : Cipher) (hsel : selectMethod d = .ok (8 * n, m)) (hn : 1 ≤ n ∧ n ≤ 16) (hr : 2 ≤ d.r ∧ d.r ≤ 4)
+    (hc : (m = .v2 ∧ c = .rc4) ∨ (m = .aesv2 ∧ c = .aes128 ∧ n = 16))
+    (userPw ownerPw tail : Bytes) (w : WrittenRc4 H d id0 n userPw ownerPw tail) :
+    ∃ dec, fromPassword P d id0 userPw = .ok (.decoder dec) ∧
+      ReadsPlaintext P H dec c (alg2Key H d.r n d.o d.p id0 d.encryptMetadata userPw) := by
+  obtain ⟨dec, hfp, hmeth, _, hkey⟩ := user_password_accepted_rc4 hp hw d id0 n m hsel hn hr userPw ownerPw tail w
+  refine ⟨dec, hfp, reads_plaintext_of_matches hp hw dec c _ ?_⟩
+  have hkl : (alg2Key H d.r n d.o d.p id0 d.encryptMetadata userPw).length = n := by
+    unfold alg2Key; rw [List.length_take, alg2Digest_length hw]; omega
+  rcases hc with ⟨h1, h2⟩ | ⟨h1, h2, h3⟩
+  · subst h2; exact ⟨hmeth.trans h1, hkey⟩
+  · subst h2; exact ⟨hmeth.trans h1, hkey, by rw [hkl, h3]⟩
+
+/-- **C06 for revisions 2–4, owner password, end to end** (objects and streams). Same document as above;
+    the one extra hypothesis is the `hcoll` of `owner_password_accepted_rc4` (the owner password tried as
+    user password does not reproduce `/U` with a *different* key), which cannot be dropped. The decoder then
+    holds the *same* file key as for the user password, so everything reads as plaintext. -/
+theorem document_plaintext_owner_rc4 {P : Prims} {H : Hashes} (hp : PrimsAgree P H) (hw : H.WF) (d : CryptDict) (id0 : Bytes)
+    (n : Nat) (m : Method) (c : Cipher) (hsel : selectMethod d = .ok (8 * n, m)) (hn : 1 ≤ n ∧ n ≤ 16) (hr : 2 ≤ d.r ∧ d.r ≤ 4)
+    (hc : (m = .v2 ∧ c = .rc4) ∨ (m = .aesv2 ∧ c = .aes128 ∧ n = 16))
+    (userPw ownerPw tail : Bytes) (w : WrittenRc4 H d id0 n userPw ownerPw tail)
+    (hcoll : UCheck H d.r d.u id0 ((alg2Digest H d.r n d.o d.p id0 d.encryptMetadata ownerPw).take n) →
+      (alg2Digest H d.r n d.o d.p id0 d.encryptMetadata ownerPw).take n = alg2Key H d.r n d.o d.p id0 d.encryptMetadata userPw) :
+    ∃ dec, fromPassword P d id0 ownerPw = .ok (.decoder dec) ∧
+      ReadsPlaintext P H dec c (alg2Key H d.r n d.o d.p id0 d.encryptMetadata userPw) := by
+  obtain ⟨dec, hfp, hmeth, _, hkey⟩ := owner_password_accepted_rc4 hp hw d id0 n m hsel hn hr userPw ownerPw tail w hcoll
+  refine ⟨dec, hfp, reads_plaintext_of_matches hp hw dec c _ ?_⟩
+  have hkl : (alg2Key H d.r n d.o d.p id0 d.encryptMetadata userPw).length = n := by
+    unfold alg2Key; rw [List.length_take, alg2Digest_length hw]; omega
+  rcases hc with ⟨h1, h2⟩ | ⟨h1, h2, h3⟩
+  · subst h2; exact ⟨hmeth.trans h1, hkey⟩
+  · subst h2; exact ⟨hmeth.trans h1, hkey, by rw [hkl, h3]⟩
+
+/-- **stream data tied to `from_password`, revisions 5 and 6, user password** (objects and streams) -/
+theorem document_stream_plaintext_user_56 {P : Prims} {H : Hashes} (hp : PrimsAgree P H) (hw : H.WF) (d : CryptDict) (id userPw : Bytes)
+    (kb : Nat) (hsel : selectMethod d = .ok (kb, .aesv3)) (hr : d.r = 5 ∨ d.r = 6)
+    (ho : d.o.length = 48) (oe : Bytes) (hoe : d.oe = some oe) (hoel : oe.length = 32)
+    (pU vs ks fileKey : Bytes) (hprep : prepPw H userPw = some pU) (w : WrittenU56 H d pU vs ks fileKey) :
+    ∃ dec, fromPassword P d id userPw = .ok (.decoder dec) ∧ ReadsPlaintext P H dec .aes256 fileKey :=
+  ⟨_, user_password_accepted_56 hp hw d id userPw kb .aesv3 hsel hr ho oe hoe hoel pU vs ks fileKey hprep w,
+    reads_plaintext_of_matches hp hw _ .aes256 fileKey ⟨rfl, rfl, w.key⟩⟩
+
+/-- **C06 for revisions 5 and 6, owner password, end to end** (objects and streams), under the `hcoll` of
+    `owner_password_accepted_56` (if the owner password also passes the user check, `/UE` unwraps to the same key) -/
+theorem document_plaintext_owner_56 {P : Prims} {H : Hashes} (hp : PrimsAgree P H) (hw : H.WF) (d : CryptDict) (id ownerPw : Bytes)
+    (kb : Nat) (hsel : selectMethod d = .ok (kb, .aesv3)) (hr : d.r = 5 ∨ d.r = 6)
+    (hu : d.u.length = 48) (ue : Bytes) (hue : d.ue = some ue) (huel : ue.length = 32)
+    (pO vs ks fileKey : Bytes) (hprep : prepPw H ownerPw = some pO) (w : WrittenO56 H d pO vs ks fileKey)
+    (hcoll : StdSec.hash56 H d.r pO ((d.u.drop 32).take 8) [] = d.u.take 32 →
+      cbcDec (H.aesD (StdSec.hash56 H d.r pO ((d.u.drop 40).take 8) [])) 2 zeroIV ue = fileKey) :
+    ∃ dec, fromPassword P d id ownerPw = .ok (.decoder dec) ∧ ReadsPlaintext P H dec .aes256 fileKey :=
+  ⟨_, owner_password_accepted_56 hp hw d id ownerPw kb .aesv3 hsel hr hu ue hue huel pO vs ks fileKey hprep w hcoll,
+    reads_plaintext_of_matches hp hw _ .aes256 fileKey ⟨rfl, rfl, w.key⟩⟩
+
 /-- before revision 4 `/EncryptMetadata` means nothing: whatever the dictionary says, the decoder
     `from_password` returns for revisions 2 and 3 exempts the encryption dictionary only, so the metadata
     stream is decrypted like every other stream (after the repair f5ad9f6) -/
@@ -548,8 +630,8 @@ theorem select_v5 (d : CryptDict) (name : Bytes) (f : CryptFilter) (h : d.v = 5)
 
 /-! ## Non-vacuity: the hypotheses are satisfiable and the statements say something
 
-Concrete evaluation of RC4 inside the kernel costs about ten seconds per key schedule, so only the two
-test vectors above are evaluated; the examples below *apply* the theorems to concrete dictionaries, which
+Concrete evaluation of RC4 inside the kernel costs about ten seconds per key schedule, so besides the two
+test vectors above only the two audit follow-up facts at the end (`owner_is_not_user`, `wrong_is_wrong`) are evaluated; the examples below *apply* the theorems to concrete dictionaries, which
 shows that their hypotheses can be met (by toy primitives of the right sizes, since the real MD5 / SHA /
 AES are not part of the development). -/
 
@@ -650,6 +732,52 @@ example : fromPassword P dict6 id0 userPw = .ok (.decoder (Decoder.mk' (List.rep
   user_password_accepted_56 agree wf dict6 id0 userPw 256 .aesv3 (by simp [selectMethod, dict6]) (Or.inr rfl) (by simp [dict6]) _ rfl (by simp)
     userPw (List.replicate 8 1) (List.replicate 8 2) (List.replicate 32 0x4b) (by simp [prepPw, H, userPw])
     ⟨rfl, rfl, by simp, by simp, by simp⟩
+
+/-! ### Audit follow-up: owner ≠ user, wrong password against a well-formed `/U` (kernel evaluation, ≈ 100 s) -/
+
+/-- a second toy hash whose MD5 looks at the first 32 bytes only (so that kernel evaluation of Algorithm 2
+    does not have to evaluate `/O` first) -/
+def H2 : Hashes := { H with md5 := fun x => mix 16 (x.take 32) }
+
+def P2 : Prims :=
+  { md5 := fun x => .ok (H2.md5 x), sha256 := fun x => .ok (H2.sha256 x), sha384 := fun x => .ok (H2.sha384 x),
+    sha512 := fun x => .ok (H2.sha512 x), aesEnc := fun k b => .ok (H2.aesE k b), aesDec := fun k b => .ok (H2.aesD k b),
+    saslprep := fun x => .ok x }
+
+theorem agree2 : PrimsAgree P2 H2 := ⟨fun _ => rfl, fun _ => rfl, fun _ => rfl, fun _ => rfl, fun _ _ => rfl, fun _ _ => rfl, fun _ => rfl⟩
+
+theorem wf2 : H2.WF :=
+  ⟨fun _ => by simp [H2, mix], fun _ => by simp [H2, H, mix], fun _ => by simp [H2, H, mix], fun _ => by simp [H2, H, mix],
+   fun _ b h => by simp [H2, H, h], fun _ b _ _ => by simp [H2, H]⟩
+
+/-- revision 2 (V 1, 40 bit), owner password different from the user password -/
+def dictOwner : CryptDict :=
+  let o := makeO H2 2 5 ownerPw userPw
+  { o := o, u := makeU H2 2 (alg2Key H2 2 5 o (-4) id0 true userPw) id0 [],
+    r := 2, p := -4, v := 1, bits := 40, cf := [], stmF := none, encryptMetadata := true, oe := none, ue := none }
+
+theorem writtenOwner : WrittenRc4 H2 dictOwner id0 5 userPw ownerPw [] := ⟨by simp [dictOwner], by simp [dictOwner]⟩
+
+theorem owner_is_not_user :
+    ¬ UCheck H2 dictOwner.r dictOwner.u id0 ((alg2Digest H2 dictOwner.r 5 dictOwner.o dictOwner.p id0 dictOwner.encryptMetadata ownerPw).take 5) := by
+  decide +kernel
+
+/-- **owner ≠ user password, Algorithm 7 exercised**: the owner password fails the user check
+    (`owner_is_not_user`, evaluated in the kernel), so `from_password` reaches the owner branch (for revision 2
+    one RC4 pass over `/O`), recovers the padded user password and ends with the user's file key; the whole
+    document then reads as plaintext -/
+example : ∃ dec, fromPassword P2 dictOwner id0 ownerPw = .ok (.decoder dec) ∧
+    ReadsPlaintext P2 H2 dec .rc4 (alg2Key H2 2 5 dictOwner.o (-4) id0 true userPw) :=
+  document_plaintext_owner_rc4 agree2 wf2 dictOwner id0 5 .v2 .rc4 (select_v1 _ rfl) (by decide) (by decide) (Or.inl ⟨rfl, rfl⟩)
+    userPw ownerPw [] writtenOwner (fun h => absurd h owner_is_not_user)
+
+/-- **a wrong password against a well-formed `/U`**: "uses" instead of "user" fails Algorithm 6 and
+    Algorithm 7 (both evaluated in the kernel), hence `InvalidPassword` -/
+theorem wrong_is_wrong : authenticate H2 2 5 dictOwner.o dictOwner.u dictOwner.p id0 dictOwner.encryptMetadata [0x75, 0x73, 0x65, 0x73] = none := by
+  decide +kernel
+
+example : fromPassword P2 dictOwner id0 [0x75, 0x73, 0x65, 0x73] = .ok .invalidPassword :=
+  wrong_password_rejected_rc4 agree2 wf2 dictOwner id0 _ 5 .v2 (select_v1 _ rfl) (by decide) (by decide) wrong_is_wrong
 
 end Toy
 
